@@ -367,6 +367,11 @@ impl Component for Conn {
                     let s = seq_near(rng, next_seq, hi_ack) & 0x7fff_ffff;
                     if rng.chance(1, 2) {
                         ops.push(format!("route {i} {s} {now}"));
+                        // the retransmission was routed (and remembered) on this link: a NAK for the number now
+                        // belongs to THIS link, wherever the first copy went
+                        if rng.chance(1, 2) {
+                            ops.push(format!("evt {} {} {} - - {s}", rng.below(n as u64), rng.below(2), now + 3));
+                        }
                     } else {
                         ops.push(format!("send {i} {s} {now}"));
                     }
